@@ -4,10 +4,23 @@
 // only under the "verif" build tag; it adds no code).
 package vm
 
-//@ func (*vm.EVM).Call
+// Host preconditions of the entry points (an "initialised host" in the sense of C03): the EVM was built by
+// NewEVM (tracer, interpreter present), the block context has a block number, the caller reference is a
+// non-nil ContractRef, value is a non-nil big integer in [0, 2^256).
+//@ pred hostEVM(evm) = evm != nil && evm.tracer != nil && evm.tracer.callTree != nil && evm.tracer.states != nil && evm.interpreter != nil && evm.StateDB != nil && evm.Context.BlockNumber != nil
+//@ pred hostRef(r) = r != nil && (dyntype_is(r, "*vm.Contract") ==> obj(r) != 0)
+
+//@ func (*vm.EVM).Call(evm, ctx, caller, addr, input, gas, value) (ret, leftOverGas, err)
 //@   verify
 //@   safety [C03]
-//@   requires host [C03]: evm != nil && value != nil && evm.tracer != nil && evm.interpreter != nil
+//@   requires host [C03]: hostEVM(evm) && hostRef(caller) && value != nil && !bigwide(value) && !bigneg(value)
+//@ end
+
+//@ func (*vm.EVM).precompile
+//@   verify
+//@   safety [C03 C14]
+//@   requires recv [C03]: evm != nil
+//@   ensures found-is-nonnil [C03 C14]: result1 ==> result0 != nil
 //@ end
 
 // The interpreter loop. Body: identical to go-ethereum v1.12.0 modulo ctx (E2).
